@@ -268,6 +268,8 @@ func main() {
 	fc := &fileCache{fset: token.NewFileSet(), files: map[string]*ast.File{}}
 	genOracle(fc)
 	genGov(fc)
+	genEVM(fc)
+	genGas(fc)
 	var names []string
 	for k := range fc.files {
 		names = append(names, k)
